@@ -64,10 +64,12 @@ impl Rig {
         let mut fut = std::pin::pin!(fut);
         let flag = Flag::new(true);
         let _guard = self.rt.enter();
-        let _ = poll_once(fut.as_mut(), &flag);
+        let first = poll_once(fut.as_mut(), &flag);
         let mut v = p2panda::streams::verif::take_published();
-        // complete the send in the background-capable runtime
-        let _ = self.rt.block_on(async { tokio::time::timeout(std::time::Duration::from_secs(5), fut).await });
+        if first.is_pending() {
+            // complete the send in the background-capable runtime
+            let _ = self.rt.block_on(async { tokio::time::timeout(std::time::Duration::from_secs(5), fut).await });
+        }
         v.pop().ok_or_else(|| "publish did not reach the tap".to_string())
     }
 }
